@@ -1,11 +1,12 @@
 #!/bin/sh
-# runs every registered quick (or thorough) check in sequence; prints one line per check
+# runs every registered quick (or thorough) check in sequence; prints one line per check; full output in $VERIF_OUT (default /tmp)
 TIER="${1:-quick}"
+OUT="${VERIF_OUT:-/tmp}"
 cd "$(dirname "$0")/.."
 for id in $(python3 -c "import json; print(' '.join(c['property_id'] for c in json.load(open('MANIFEST.json'))['checks']))"); do
   s=$(date +%s)
-  ./vcheck "$id" --tier "$TIER" > "/tmp/vcheck_$id.out" 2>&1
+  ./vcheck "$id" --tier "$TIER" > "$OUT/vcheck_${TIER}_$id.out" 2>&1
   rc=$?
   e=$(date +%s)
-  echo "$id rc=$rc $((e-s))s $(grep -c '^KNOWN-FINDING' /tmp/vcheck_$id.out) known  $(tail -1 /tmp/vcheck_$id.out | cut -c1-120)"
+  echo "$id rc=$rc $((e-s))s $(grep -c '^KNOWN-FINDING' "$OUT/vcheck_${TIER}_$id.out") known  $(tail -1 "$OUT/vcheck_${TIER}_$id.out" | cut -c1-120)"
 done
